@@ -67,13 +67,16 @@ class optional_node_property(base_rw_property[Optional[_M], _U]):
 
 
 def _check_detachable(values: Iterable[base.RawModel]) -> None:
-    """Refuses nodes that still live inside another tree, before anything is modified."""
+    """Refuses nodes that still live inside another tree, that were already consumed, or that occur twice, before anything is modified."""
+    seen = set[int]()
     for value in values:
         token_store = value.token_store
-        if token_store and (
+        if id(value) in seen or token_store is not None and (
+                not token_store or
                 value.first_token is not token_store.get_first() or
                 value.last_token is not token_store.get_last()):
             raise ValueError('Cannot reuse node. Consider making a copy.')
+        seen.add(id(value))
 
 
 class RepeatedNodeWrapperUpdateHandler(abc.ABC):
@@ -145,6 +148,8 @@ class RepeatedNodeWrapper(MutableSequence[_M]):
             separators_before_last: Optional[base.RawTokenModel] = None,
     ) -> None:
         tokens: list[base.RawTokenModel] = []
+        values = list(values)
+        _check_detachable(values)  # before any of them is detached: a refused batch must not consume its free nodes
         ref = self._prev_last(index)
         if length is None:
             length = len(self._repeated.items)
